@@ -207,3 +207,80 @@ def install(force=False):
         return 0
     _scanned.update(names)
     return schedx.install(extra={_socket: socket_shim, _select: select_shim})
+
+
+# ---------------------------------------------------------------------------------------------
+# a real server on the other end: the accepted side of an in-memory connection, handed to a request handler thread
+
+class ServerSideSock:
+    """the server's end of an in-memory stream connection (for the real TCPRequestHandler)"""
+    def __init__(self, client_sock, label):
+        self.client = client_sock
+        self.label = label
+        self.inbox = []
+        self.timeout = None
+        self.closed = False
+        self.peer_closed = False
+
+    def settimeout(self, t):
+        self.timeout = t
+
+    def recv(self, n):
+        s = schedx.active()
+        if self.closed:
+            raise OSError(9, 'Bad file descriptor')
+        if s is None:
+            if self.inbox:
+                return self.inbox.pop(0)
+            if self.peer_closed:
+                return b''
+            raise _socket.timeout('timed out')
+        deadline = None if self.timeout is None else s.now + self.timeout
+        s.point('recv', self.label, lambda: bool(self.inbox) or self.peer_closed or self.closed, deadline)
+        if self.closed:
+            raise OSError(9, 'Bad file descriptor')
+        if self.inbox:
+            data = self.inbox.pop(0)
+            if len(data) > n:
+                self.inbox.insert(0, data[n:])
+                data = data[:n]
+            return data
+        if self.peer_closed:
+            return b''
+        raise _socket.timeout('timed out')
+
+    def sendall(self, data):
+        s = schedx.active()
+        if s is not None:
+            s.point('send', self.label)
+        if self.closed or self.peer_closed:
+            raise BrokenPipeError(32, 'Broken pipe')
+        self.client.deliver(bytes(data))
+
+    def shutdown(self, how):
+        pass
+
+    def close(self):
+        if not self.closed:
+            self.closed = True
+            self.client.peer_close()
+
+
+class ServerPeer:
+    """peer object for Net.listen: every accepted connection is served by `serve(server_side_sock)` in a new
+    controlled thread (e.g. the real TCPRequestHandler)"""
+    def __init__(self, serve, name='server'):
+        self.serve = serve
+        self.name = name
+        self.ssock = None
+
+    def on_connect(self, sock):
+        self.ssock = ServerSideSock(sock, 'S' + sock.label[1:])
+        t = schedx.Thread(target=lambda: self.serve(self.ssock), name=f'{self.name}-{sock.label}', daemon=True)
+        t.start()
+
+    def on_data(self, sock, data):
+        self.ssock.inbox.append(bytes(data))
+
+    def on_close(self, sock):
+        self.ssock.peer_closed = True
